@@ -89,7 +89,9 @@ impl GraphEngine {
         let file_lock = lock_database(&ndb_path)?;
 
         let mut pager = Pager::open(&ndb_path)?;
-        let wal = Wal::open(&wal_path)?;
+        let mut wal = Wal::open(&wal_path)?;
+        // New records are appended at the end of the file: drop a torn tail first.
+        wal.truncate_torn_tail()?;
 
         let mut idmap = IdMap::load(&mut pager)?;
         let mut index_catalog = IndexCatalog::open_or_create(&mut pager)?;
